@@ -8,7 +8,9 @@
     cell (i,j) speaks about the prefixes A[:i], B[:j].  A matrix is a list of columns (the Go code is
     column-major), each column a list of cells (score, direction) for rows 0..la.
     Directions: 0 diagonal, +1 left (consumes a base of B), -1 top (consumes a base of A). *)
-From Coq Require Import ZArith List Bool.
+From Coq Require Import ZArith QArith List Bool.
+From OBI.C08.Gen Require Import Tables.
+From OBI.C08 Require Import VoteModel ScoreModel.
 Import ListNotations.
 Open Scope Z_scope.
 
@@ -177,12 +179,12 @@ Definition patch_old (extra5 extra3 : Z) (p : list Z) : list Z :=
   | _ => p1 ++ [extra3; 0]
   end.
 
-(** fast mode given the outcome (shift, fastCount) of the 4-mer vote, which is NOT modelled (obikmer.FastShiftFourMer).
+(** fast mode given the outcome (shift, fastCount) of the 4-mer vote.
     [None]: a slice bound of the Go code would be out of range. *)
 Fixpoint diag_sum (sc : nat -> nat -> Z) (i j n : nat) : Z :=
   match n with O => 0 | S n' => sc i j + diag_sum sc (S i) (S j) n' end.
 
-Definition pealign_fast (sc : nat -> nat -> Z) (gap : Z) (la lb : nat) (shift fastcount delta : Z)
+Definition pealign_fast_with (sc : nat -> nat -> Z) (gap : Z) (la lb : nat) (shift fastcount delta : Z)
   : option (bool * Z * list Z) :=
   let zla := Z.of_nat la in let zlb := Z.of_nat lb in
   let starts_in_a := (shift >? 0) || ((shift =? 0) && (zla <? zlb)) in
@@ -222,6 +224,16 @@ Definition pealign_fast (sc : nat -> nat -> Z) (gap : Z) (la lb : nat) (shift fa
       if (startB <? 0) || (partLen <? 0) || (partLen >? zla) then None else
       Some (false, diag_sum sc 0 (Z.to_nat startB) (Z.to_nat partLen), patch startB (partLen - zla) [0; partLen]).
 
+(** the overlap reported by PEAlign for the diagonal chosen by the vote *)
+Definition fast_over (la lb : nat) (shift : Z) : Z :=
+  if (shift >? 0) || ((shift =? 0) && (Z.of_nat la <? Z.of_nat lb)) then Z.of_nat la - shift else Z.of_nat lb + shift.
+
+(** PEAlign, fast mode, on the two reads (bytes): Index4mer(A) + FastShiftFourMer(B) (VoteModel), then the above *)
+Definition pealign_fast (sc : nat -> nat -> Z) (gap : Z) (a b : list Z) (rel : bool) (delta : Z)
+  : option (bool * Z * list Z) :=
+  let '(shift, fastcount, _) := fast_shift a b rel in
+  pealign_fast_with sc gap (length a) (length b) shift fastcount delta.
+
 (** ---- consensus (BuildQualityConsensus): _BuildAlignment run twice (bases with ' ' = 32 for gaps, qualities
     with 0 for gaps), then one pass over the columns.  Bases and qualities are [Z] (bytes). *)
 Fixpoint build_ali (sa sb : list Z) (p : list Z) (gapc : Z) : list Z * list Z :=
@@ -237,10 +249,8 @@ Fixpoint build_ali (sa sb : list Z) (p : list Z) (gapc : Z) : list Z * list Z :=
   end.
 
 (** _FourBitsBaseCode (index = byte land 31) and _FourBitsBaseDecode *)
-Definition fourbits : list Z :=
-  [0; 1; 14; 2; 13; 0; 0; 4; 11; 0; 0; 12; 0; 3; 15; 0; 0; 0; 5; 6; 8; 8; 7; 9; 0; 10; 0; 0; 0; 0; 0; 0].
-Definition fourdecode : list Z :=   (* . a c m g r s v t w y h k d b n *)
-  [46; 97; 99; 109; 103; 114; 115; 118; 116; 119; 121; 104; 107; 100; 98; 110].
+Definition fourbits : list Z := fourbits_code.       (* regenerated from the build: Gen/Tables.v *)
+Definition fourdecode : list Z := fourbits_decode.   (* . a c m g r s v t w y h k d b n *)
 Definition code4 (b : Z) : Z := nth (Z.to_nat (Z.land b 31)) fourbits 0.
 
 Definition cons_base (na qa nb qb : Z) : Z :=
@@ -259,6 +269,30 @@ Definition consensus (a qa b qb : list Z) (p : list Z) : list Z :=
   let '(xa, xb) := build_ali qa qb p 0 in
   zip4 sa xa sb xb.
 
+(** consensus quality of one column: a function of (nA = nB, qA, qB) alone.  The float expression
+    [qM - byte(log10(1 - 10^(-qm/30)) * 10 + 0.5)] is DATA: the two tables are regenerated from the build by running the
+    real BuildQualityConsensus on every one-column alignment a/c and a/a with qualities 0..93 (Gen/Tables.v).  A gap is
+    (32, 0): the tables agree on every pair with a quality 0 (theorem C08_quality_tables). *)
+Definition tab2 (t : list (list Z)) (i j : Z) : Z := nth (Z.to_nat j) (nth (Z.to_nat i) t []) 0.
+Definition cons_qual (na qa nb qb : Z) : Z :=
+  if na =? nb then tab2 match_qual qa qb else tab2 mismatch_qual qa qb.
+(** [match++] : identical bases, both qualities > 0 *)
+Definition is_match (na qa nb qb : Z) : Z := if (na =? nb) && (qa >? 0) && (qb >? 0) then 1 else 0.
+
+Fixpoint zip4g (f : Z -> Z -> Z -> Z -> Z) (sa qa sb qb : list Z) : list Z :=
+  match sa, qa, sb, qb with
+  | na :: sa', xa :: qa', nb :: sb', xb :: qb' => f na xa nb xb :: zip4g f sa' qa' sb' qb'
+  | _, _, _, _ => []
+  end.
+
+Definition columns_map (f : Z -> Z -> Z -> Z -> Z) (a qa b qb : list Z) (p : list Z) : list Z :=
+  let '(sa, sb) := build_ali a b p 32 in
+  let '(xa, xb) := build_ali qa qb p 0 in
+  zip4g f sa xa sb xb.
+
+Definition consensus_qual (a qa b qb : list Z) (p : list Z) : list Z := columns_map cons_qual a qa b qb p.
+Definition match_count (a qa b qb : list Z) (p : list Z) : Z := fold_right Z.add 0 (columns_map is_match a qa b qb p).
+
 (** ---- AssemblePESequences: what it derives from the path (left = path[0]; right = path[len-2] when the last
     diagonal run is empty).  After the fix seq_a_single / seq_b_single follow the direction of the end runs. *)
 Definition ann_left (p : list Z) : Z := hd 0 p.
@@ -269,15 +303,39 @@ Definition ali_length (p : list Z) : Z :=
 Definition a_single (p : list Z) : Z := Z.abs (Z.min (ann_left p) 0) + Z.abs (Z.min (ann_right p) 0).
 Definition b_single (p : list Z) : Z := Z.max (ann_left p) 0 + Z.max (ann_right p) 0.
 
+(** the record returned by AssemblePESequences (withStats): sequence, qualities and the integer / string annotations
+    mode (true = "alignment", false = "join"), ali_dir (true = "left"), ali_length, seq_ab_match, seq_a_single,
+    seq_b_single (0 in join mode: not written), score.  score_norm = round(1000 * match / ali_length) / 1000 and the
+    pairing_mismatches map are not modelled (floats / strings: oracle). *)
+Record asm := mka {
+  as_mode : bool; as_seq : list Z; as_qual : list Z; as_ali : Z; as_match : Z;
+  as_asingle : Z; as_bsingle : Z; as_dirleft : bool; as_score : Z }.
+
+Definition ten (x : Z) : list Z := repeat x 10.
+
+Definition assemble (a qa b qb : list Z) (isl : bool) (score : Z) (p : list Z) (minov : Z) (minid : Q) : asm :=
+  let cons := consensus a qa b qb p in
+  let m := match_count a qa b qb p in
+  let ali := Z.of_nat (length cons) - Z.abs (ann_left p) - Z.abs (ann_right p) in
+  (* identity := float64(match) / float64(aliLength); 0 when aliLength == 0 *)
+  let ident : Q := if ali =? 0 then 0%Q else Qmake m (Z.to_pos ali) in
+  if (ali >=? minov) && Qle_bool minid ident
+  then mka true cons (consensus_qual a qa b qb p) ali m (a_single p) (b_single p) isl score
+  else mka false (a ++ ten 46 ++ b) (qa ++ ten 0 ++ qb) ali m 0 0 isl score.
+
 (** ---- correspondence cases: inputs + what the real code answered *)
 Record ccase := mkc {
-  c_la : nat; c_lb : nat; c_rows : list (list Z); c_gap : Z;
+  c_rows : list (list Z); c_gap : Z;
   c_a : list Z; c_qa : list Z; c_b : list Z; c_qb : list Z;
-  c_fast : bool; c_shift : Z; c_fastcount : Z; c_delta : Z;
-  c_scoreL : Z; c_pathL : list Z; c_scoreR : Z; c_pathR : list Z;
+  c_fast : bool; c_rel : bool; c_delta : Z;
+  (* the vote: obikmer.Index4mer + FastShiftFourMer called directly, and what PEAlign reports *)
+  c_shift : Z; c_fastcount : Z; c_fscore : Q; c_over : Z; c_ka : list Z; c_kb : list Z;
+  c_hasfills : bool; c_scoreL : Z; c_pathL : list Z; c_scoreR : Z; c_pathR : list Z;
   c_isleft : bool; c_score : Z; c_path : list Z;
-  c_usecons : bool; c_cons : list Z;
-  c_ali : Z; c_asingle : Z; c_bsingle : Z }.
+  (* the column scores: scale (the match / mismatch entries of (qA[i], qB[j]) are read in the regenerated tables) *)
+  c_hassc : bool; c_scale : Q;
+  (* AssemblePESequences *)
+  c_minov : Z; c_minid : Q; c_asm : asm }.
 
 Definition sc_of (rows : list (list Z)) (i j : nat) : Z := nth j (nth i rows []) 0.
 
@@ -291,27 +349,65 @@ Fixpoint zl_eqb (x y : list Z) : bool :=
 Definition opath_eqb (o : option (list Z)) (p : list Z) : bool :=
   match o with Some q => zl_eqb q p | None => false end.
 
-Definition case_ok (c : ccase) : bool :=
+Definition ores_eqb (o : option (bool * Z * list Z)) (isl : bool) (s : Z) (p : list Z) : bool :=
+  match o with
+  | Some (isl', s', p') => Bool.eqb isl' isl && (s' =? s) && zl_eqb p' p
+  | None => false
+  end.
+
+(** both fills + backtracking alone *)
+Definition ok_fills (c : ccase) : bool :=
   let sc := sc_of (c_rows c) in
-  let '(sl, pl) := fill_bt sc (c_gap c) (c_la c) (c_lb c) true in
-  let '(sr, pr) := fill_bt sc (c_gap c) (c_la c) (c_lb c) false in
-  (sl =? c_scoreL c) && opath_eqb pl (c_pathL c) && (sr =? c_scoreR c) && opath_eqb pr (c_pathR c) &&
-  (if c_fast c then
-     (* fast mode: the vote is not modelled: (shift, fastCount) are taken from the observation *)
-     match pealign_fast sc (c_gap c) (c_la c) (c_lb c) (c_shift c) (c_fastcount c) (c_delta c) with
-     | Some (isl, s, p) => Bool.eqb isl (c_isleft c) && (s =? c_score c) && zl_eqb p (c_path c)
-     | None => false
-     end
-   else
-     match pealign_exact sc (c_gap c) (c_la c) (c_lb c) with
-     | Some (isl, s, p) => Bool.eqb isl (c_isleft c) && (s =? c_score c) && zl_eqb p (c_path c)
-     | None => false
-     end) &&
-  (if c_usecons c then
-     zl_eqb (consensus (c_a c) (c_qa c) (c_b c) (c_qb c) (c_path c)) (c_cons c) &&
-     (a_single (c_path c) =? c_asingle c) && (b_single (c_path c) =? c_bsingle c)
-   else true) &&
-  (ali_length (c_path c) =? c_ali c).
+  let la := length (c_a c) in let lb := length (c_b c) in
+  if c_hasfills c then
+    let '(sl, pl) := fill_bt sc (c_gap c) la lb true in
+    let '(sr, pr) := fill_bt sc (c_gap c) la lb false in
+    (sl =? c_scoreL c) && opath_eqb pl (c_pathL c) && (sr =? c_scoreR c) && opath_eqb pr (c_pathR c)
+  else true.
+
+(** the 4-mer vote: Encode4mer of both reads, (shift, count, score) and the overlap reported by PEAlign *)
+Definition ok_vote (c : ccase) : bool :=
+  if c_fast c then
+    let '(s, fc, q) := fast_shift (c_a c) (c_b c) (c_rel c) in
+    (s =? c_shift c) && (fc =? c_fastcount c) && Qeq_bool q (c_fscore c) &&
+    (fast_over (length (c_a c)) (length (c_b c)) s =? c_over c) &&
+    zl_eqb (encode4mer (c_a c)) (c_ka c) && zl_eqb (encode4mer (c_b c)) (c_kb c)
+  else true.
+
+(** PEAlign: (isLeft, score, path); in fast mode the vote is computed by the model *)
+Definition ok_align (c : ccase) : bool :=
+  let sc := sc_of (c_rows c) in
+  if c_fast c then ores_eqb (pealign_fast sc (c_gap c) (c_a c) (c_b c) (c_rel c) (c_delta c)) (c_isleft c) (c_score c) (c_path c)
+  else ores_eqb (pealign_exact sc (c_gap c) (length (c_a c)) (length (c_b c))) (c_isleft c) (c_score c) (c_path c).
+
+(** every cell of the exported score matrix against _PairingScorePeAlign over the table entries of (qA[i], qB[j])
+    ([nuc_match], [nuc_mismatch]: regenerated from the build, Gen/Tables.v) *)
+Definition cell_score (scale : Q) (x qx y qy : Z) (s : Z) : bool :=
+  score_agrees (tab2 nuc_match qx qy) (tab2 nuc_mismatch qx qy) scale (part_match x y) s.
+Fixpoint ok_score_row (scale : Q) (x qx : Z) (b qb : list Z) (sc : list Z) : bool :=
+  match b, qb, sc with
+  | [], [], [] => true
+  | y :: b', qy :: qb', s :: sc' => cell_score scale x qx y qy s && ok_score_row scale x qx b' qb' sc'
+  | _, _, _ => false
+  end.
+Fixpoint ok_score_rows (scale : Q) (a qa b qb : list Z) (sc : list (list Z)) : bool :=
+  match a, qa, sc with
+  | [], [], [] => true
+  | x :: a', qx :: qa', s :: sc' => ok_score_row scale x qx b qb s && ok_score_rows scale a' qa' b qb sc'
+  | _, _, _ => false
+  end.
+Definition ok_scores (c : ccase) : bool :=
+  if c_hassc c then ok_score_rows (c_scale c) (c_a c) (c_qa c) (c_b c) (c_qb c) (c_rows c) else true.
+
+(** AssemblePESequences on the path returned by the real PEAlign *)
+Definition asm_eqb (x y : asm) : bool :=
+  Bool.eqb (as_mode x) (as_mode y) && zl_eqb (as_seq x) (as_seq y) && zl_eqb (as_qual x) (as_qual y) &&
+  (as_ali x =? as_ali y) && (as_match x =? as_match y) && (as_asingle x =? as_asingle y) &&
+  (as_bsingle x =? as_bsingle y) && Bool.eqb (as_dirleft x) (as_dirleft y) && (as_score x =? as_score y).
+Definition ok_asm (c : ccase) : bool :=
+  asm_eqb (assemble (c_a c) (c_qa c) (c_b c) (c_qb c) (c_isleft c) (c_score c) (c_path c) (c_minov c) (c_minid c)) (c_asm c).
+
+Definition case_ok (c : ccase) : bool := ok_fills c && ok_vote c && ok_align c && ok_scores c && ok_asm c.
 
 Fixpoint mismatches_from (i : nat) (l : list ccase) : list nat :=
   match l with
@@ -319,3 +415,8 @@ Fixpoint mismatches_from (i : nat) (l : list ccase) : list nat :=
   | c :: l' => let rest := mismatches_from (S i) l' in if case_ok c then rest else i :: rest
   end.
 Definition mismatches := mismatches_from 0.
+
+(** which part diverges (diagnostics): 1 fills, 2 vote, 3 align, 4 scores, 5 assembly *)
+Definition diverging_parts (c : ccase) : list nat :=
+  (if ok_fills c then [] else [1%nat]) ++ (if ok_vote c then [] else [2%nat]) ++ (if ok_align c then [] else [3%nat]) ++
+  (if ok_scores c then [] else [4%nat]) ++ (if ok_asm c then [] else [5%nat]).
